@@ -518,7 +518,7 @@ type DocCfg struct {
 
 var (
 	defDocNums = []string{"0", "1", "2", "3", "-1", "10", "1.5", "2.5", "-0.5", "0.5", "2.0", "1e2", "2147483647", "2147483648", "-2147483649", "9223372036854775807", "-9223372036854775808", "9007199254740993", "1e308", "5e-324", "0.1"}
-	hugeNums   = []string{"1e400", "-1e400", "9223372036854775808", "123456789012345678901234567890", "1e-400", "-9223372036854775809", "0.1e309"}
+	hugeNums   = []string{"1e400", "-1e400", "9223372036854775808", "123456789012345678901234567890", "1e-400", "-9223372036854775809", "0.1e309", "1" + strings.Repeat("0", 320), "-9" + strings.Repeat("9", 330), "0." + strings.Repeat("0", 400) + "1"}
 )
 
 func (c DocCfg) withDefaults() DocCfg {
@@ -790,6 +790,14 @@ func walkStep(items []any, a *Node) []any {
 				for _, k := range sortedKeys(m) {
 					out = append(out, m[k])
 				}
+			} else if arr, ok := it.([]any); ok {
+				for _, e := range arr {
+					if m, ok := e.(map[string]any); ok {
+						for _, k := range sortedKeys(m) {
+							out = append(out, m[k])
+						}
+					}
+				}
 			}
 		case KIdx:
 			if arr, ok := it.([]any); ok && len(arr) > 0 {
@@ -820,8 +828,19 @@ func GenWalk(t *rapid.T, doc any, maxSteps int, strict bool, label string) (*Nod
 				for _, k := range sortedKeys(v) {
 					cands = append(cands, &Node{K: KKey, S: k})
 				}
+				if len(v) > 0 {
+					cands = append(cands, &Node{K: KAnyKey})
+				}
 			case []any:
 				cands = append(cands, &Node{K: KAnyArr}, &Node{K: KAnyArr})
+				if !strict {
+					for _, e := range v {
+						if m, ok := e.(map[string]any); ok && len(m) > 0 {
+							cands = append(cands, &Node{K: KAnyKey}) // lax: .* unwraps the array first
+							break
+						}
+					}
+				}
 				if len(v) > 0 {
 					cands = append(cands, &Node{K: KIdx, Subs: []Sub{{From: &Node{K: KInt, I: 0}, To: &Node{K: KLast}}}})
 					for _, e := range v {
@@ -850,6 +869,10 @@ func GenWalk(t *rapid.T, doc any, maxSteps int, strict bool, label string) (*Nod
 						}
 					case KAnyArr:
 						if _, isArr := it.([]any); !isArr {
+							all = false
+						}
+					case KAnyKey:
+						if _, isObj := it.(map[string]any); !isObj {
 							all = false
 						}
 					case KIdx:
